@@ -216,12 +216,14 @@ impl Display for Error {
             .map(|fragments| {
                 fragments
                     .iter()
-                    .fold(String::new(), |mut acc, item| {
-                        let _ = write!(acc, "{}/", item);
+                    .enumerate()
+                    .fold(String::new(), |mut acc, (index, item)| {
+                        if index > 0 {
+                            acc.push('/');
+                        }
+                        let _ = write!(acc, "{}", item);
                         acc
                     })
-                    .trim_end_matches('/')
-                    .to_string()
             })
             .unwrap_or_else(|| "<query>".to_string());
 
